@@ -12,6 +12,8 @@ import McpModel.Bearer.Props
 import McpModel.KeepAlive.Props
 import McpModel.KeepAlive.CloseProps
 import McpModel.OAuth.Props
+import McpModel.OAuth.Bridge
+import McpModel.OAuth.Sound
 import McpModel.OAuth.Challenge
 import McpModel.Paginate.Props
 import McpModel.Negotiate.Props
